@@ -842,6 +842,89 @@ def rule_r6(prog, res) -> None:
     shared_rule(res, c09.rule_r7, "C09", "C09.R7", "C18.R6")
 
 
+MUTATORS = {"append", "appendleft", "extend", "extendleft", "pop", "popleft", "clear", "insert", "remove", "update", "add", "discard", "rotate", "sort", "reverse"}
+
+
+def rule_r7(prog, res) -> None:
+    """a new pass starts from a clean iteration state: every attribute of the reader that producing a chunk changes
+    (assigned, augmented, or mutated in place through append / popleft / …, in `__next__` and everything it reaches on
+    self) is re-initialised by what `__iter__` runs first (`_reset_iter_state` and the overrides / super calls it
+    reaches).  A read-ahead buffer that survives a partial pass is delivered again at the head of the next pass: the
+    chunks shift, records at the end are never requested, nothing raises."""
+    base = prog.find_class("DataChunkReader")
+    n = 0
+    for ci in prog.subclasses(base):
+        nxt = prog.find_method(ci, "__next__")
+        it = prog.find_method(ci, "__iter__")
+        if nxt is None or it is None or nxt.is_abstract:
+            continue
+        concrete = prog.find_method(ci, "_get_next_chunk")
+        if concrete is None or concrete.is_abstract:
+            continue
+
+        def closure(start):
+            seen, todo = [], [start]
+            while todo:
+                m = todo.pop()
+                if m in seen:
+                    continue
+                seen.append(m)
+                for c in calls_in(m):
+                    f = c.func
+                    if isinstance(f, ast.Attribute) and isinstance(f.value, ast.Name) and f.value.id == "self":
+                        t = prog.find_method(ci, f.attr)
+                        if t is not None and not t.is_property:
+                            todo.append(t)
+                    elif isinstance(f, ast.Attribute) and isinstance(f.value, ast.Call) and isinstance(f.value.func, ast.Name) and f.value.func.id == "super" and m.cls is not None:
+                        t = prog.find_method(m.cls, f.attr, after=m.cls)
+                        if t is not None:
+                            todo.append(t)
+            return seen
+
+        def assigned(ms):
+            out = {}
+            for m in ms:
+                for x in walk_no_nested(m.node):
+                    tgts = x.targets if isinstance(x, ast.Assign) else [x.target] if isinstance(x, (ast.AugAssign, ast.AnnAssign)) else []
+                    for t in tgts:
+                        for y in ast.walk(t):
+                            if isinstance(y, ast.Attribute) and isinstance(y.ctx, ast.Store) and isinstance(y.value, ast.Name) and y.value.id == "self":
+                                out.setdefault(y.attr, (m, x))
+            return out
+
+        def mutated(ms):
+            out = assigned(ms)
+            for m in ms:
+                for c in calls_in(m):
+                    f = c.func
+                    if isinstance(f, ast.Attribute) and f.attr in MUTATORS and isinstance(f.value, ast.Attribute) and isinstance(f.value.value, ast.Name) and f.value.value.id == "self":
+                        out.setdefault(f.value.attr, (m, c))
+            return out
+
+        step = closure(nxt)
+        reset_ms = [m for m in closure(it) if m is not it and m not in step] or closure(it)
+        # (what __iter__ runs before handing out the iterator; methods shared with the step are not a reset)
+        changed = mutated(step)
+        reset = assigned(reset_ms)
+        n += 1
+        res.touch(nxt)
+        missing = sorted(a for a in changed if a not in reset)
+        if missing:
+            m_, x_ = changed[missing[0]]
+            res.violation(
+                "C18.R7",
+                m_,
+                x_,
+                f"{ci.name}: producing a chunk changes self.{missing[0]} but starting a pass (`__iter__` -> {', '.join(sorted({m.qualname for m in reset_ms}))[:80]}) does not re-initialise it: after a partial pass (a peek, a break, an exception) "
+                "the next pass over the same reader starts with the leftovers — records are delivered twice and the same number at the end is never read",
+                key_extra=f"iter-state-not-reset-{ci.name}-{missing[0]}",
+            )
+        else:
+            res.ok("C18.R7", res.site(nxt, ci.name), f"every attribute changed while producing a chunk ({sorted(changed)}) is re-initialised at the start of a pass")
+    if n < 4:
+        raise AnalysisError(f"C18.R7: only {n} concrete chunk readers analysed, minimum 4")
+
+
 RULES = [
     ("C18.R1", rule_r1, QUICK),
     ("C18.R2", rule_r2, QUICK),
@@ -849,4 +932,5 @@ RULES = [
     ("C18.R4", rule_r4, QUICK),
     ("C18.R5", rule_r5, QUICK),
     ("C18.R6", rule_r6, QUICK),
+    ("C18.R7", rule_r7, QUICK),
 ]
